@@ -115,6 +115,14 @@ GEN_TIES = {
         "gen": "gen_point.py", "gen_file": "GscribModel/Gen/PointSrc.lean", "tie": "PointTie", "validate": "harness.tie_point",
         "what": "the models' point operations no longer equal the Point methods translated from gscrib/geometry/point.py",
     },
+    "builder": {
+        "props": {"C02", "C03", "C05", "C06", "C07"},
+        "gen": "gen_builder.py", "gen_file": "GscribModel/Gen/BuilderSrc.lean", "tie": "BuilderTie",
+        "gens": [("gen_code_table.py", "GscribModel/Gen/CodeTable.lean"), ("gen_state.py", "GscribModel/Gen/StateSrc.lean"),
+                 ("gen_builder.py", "GscribModel/Gen/BuilderSrc.lean")],
+        "ties": ["Tables", "StateTie", "BuilderTie"],
+        "what": "the builder model's commands no longer equal the GCodeBuilder methods translated from gscrib/gcode_builder.py",
+    },
     "state": {
         "props": {"C02", "C03", "C05", "C06", "C07"},
         "gen": "gen_state.py", "gen_file": "GscribModel/Gen/StateSrc.lean", "tie": "StateTie", "validate": "harness.tie_state",
@@ -147,40 +155,48 @@ def _print_axioms(module: str, names: list[str], env=None, cwd=None) -> dict:
 def check_generated_tie(key: str) -> dict:
     """-> {ok, log, theorems: {name: axioms|None}, regenerated: bool, forbidden: [...]}"""
     t = GEN_TIES[key]
+    gens = t.get("gens") or [(t["gen"], t["gen_file"])]
+    ties = t.get("ties") or [t["tie"]]          # tie modules to (re)compile, in dependency order; the last one is audited
     tie_src = LEAN / "GscribModel" / "Props" / f"{t['tie']}.lean"
     names = [n for n in re.findall(r"^theorem\s+([A-Za-z_][\w.']*)", _strip_lean_comments(tie_src.read_text()), re.M)
              if n.startswith(t["tie"] + "_")]          # the tie theorems proper (helper lemmas live in a namespace)
     forbidden = [f"{tie_src.name}: {m.group(0).strip()}" for m in FORBIDDEN.finditer(_strip_lean_comments(tie_src.read_text()))]
-    g = subprocess.run([sys.executable, str(VERIF / "tools" / t["gen"]), str(REPO), "--stdout"], capture_output=True, text=True)
-    if g.returncode != 0:
-        return {"ok": False, "log": "translator refused the source: " + (g.stdout + g.stderr)[-1500:], "theorems": {}, "regenerated": True,
-                "forbidden": forbidden}
-    committed = LEAN / t["gen_file"]
-    same = committed.exists() and committed.read_text() == g.stdout and os.environ.get("VERIF_FORCE_PRIVATE_TIE") != "1"
+    texts, same = [], os.environ.get("VERIF_FORCE_PRIVATE_TIE") != "1"
+    for script, gen_file in gens:
+        g = subprocess.run([sys.executable, str(VERIF / "tools" / script), str(REPO), "--stdout"], capture_output=True, text=True)
+        if g.returncode != 0:
+            return {"ok": False, "log": f"translator {script} refused the source: " + (g.stdout + g.stderr)[-1500:], "theorems": {},
+                    "regenerated": True, "forbidden": forbidden}
+        texts.append((gen_file, g.stdout))
+        committed = LEAN / gen_file
+        same = same and committed.exists() and committed.read_text() == g.stdout
     if same:
         ok, log, _ = lake_build(False, target=f"GscribModel.Props.{t['tie']}")
         th = _print_axioms(f"GscribModel.Props.{t['tie']}", names) if ok else {}
         return {"ok": ok, "log": log[-1500:], "theorems": th, "regenerated": False, "forbidden": forbidden}
-    # the source differs from the committed translation: compile translation and tie privately
-    ok0, log0, _ = lake_build(False)       # the library the generated file imports
+    # the source differs from the committed translation: compile translations and ties privately
+    ok0, log0, _ = lake_build(False)       # the library the generated files import
     tmp = Path(tempfile.mkdtemp(prefix="gscrib_gen_"))
     try:
-        gen_mod = t["gen_file"][:-5].replace("/", ".")
-        src = tmp / t["gen_file"]
-        src.parent.mkdir(parents=True, exist_ok=True)
-        src.write_text(g.stdout)
         out = tmp / "out"
         out.mkdir()
         # a package cannot be split over two search-path entries: mirror the built library by symbolic links, then
-        # replace the two modules compiled here
+        # replace the modules compiled here
         subprocess.run(["cp", "-rs", str(LEAN / ".lake" / "build" / "lib" / "lean" / "GscribModel"), str(out / "GscribModel")], check=True)
         env = dict(os.environ, LEAN_PATH=str(out))
-        log = ""
-        ok = ok0
-        tie_copy = tmp / "GscribModel" / "Props" / tie_src.name
-        tie_copy.parent.mkdir(parents=True, exist_ok=True)
-        shutil.copy(tie_src, tie_copy)
-        for mod, path in ((gen_mod, src), (f"GscribModel.Props.{t['tie']}", tie_copy)):
+        todo = []
+        for gen_file, text in texts:
+            src = tmp / gen_file
+            src.parent.mkdir(parents=True, exist_ok=True)
+            src.write_text(text)
+            todo.append((gen_file[:-5].replace("/", "."), src))
+        for tie in ties:
+            cp = tmp / "GscribModel" / "Props" / f"{tie}.lean"
+            cp.parent.mkdir(parents=True, exist_ok=True)
+            shutil.copy(LEAN / "GscribModel" / "Props" / f"{tie}.lean", cp)
+            todo.append((f"GscribModel.Props.{tie}", cp))
+        log, ok = "", ok0
+        for mod, path in todo:
             if not ok:
                 break
             o = out / (mod.replace(".", "/") + ".olean")
@@ -195,7 +211,6 @@ def check_generated_tie(key: str) -> dict:
         return {"ok": ok, "log": (errs or log[-1500:]), "theorems": th, "regenerated": True, "forbidden": forbidden}
     finally:
         shutil.rmtree(tmp, ignore_errors=True)
-
 
 
 def props_file(prop: str) -> Path:
